@@ -959,7 +959,7 @@ impl<R, T, F, M> Link<R, T, F, M> {
 //@@ qmark
 //@@ param writer : &mut ChanSender<LinkFrame>
 //@@ param session : &SessionCtlTx
-//@@ subst `let mut guard = self.unsettled.write(); *guard = None;` => `self.unsettled = None;` rule=R4
+//@@ subst `let mut guard = self.unsettled.write(); *guard = None;` => `self.unsettled = None;` rule=R4 unless `unsettled\.write\(\)`
 //@@ subst `let guard = self.unsettled.read(); guard.as_ref().map(|m| m.len())` => `unsettled_len(&self.unsettled)` rule=R15
 //@@ subst `get_max_frame_size(session, &self.session_stop_reason)` => `get_max_frame_size(session, &self.session_stop_reason)` rule=optional
 //@@ subst `|_v0|` => `|_v0: ChanSendError|` rule=optional-R5
@@ -978,6 +978,7 @@ impl<R, T, F, M> Link<R, T, F, M> {
             &&& r is Err ==> final(writer).sent@ == old(writer).sent@ && final(self).local_state == old(self).local_state
         }),
         final(self).output_handle == old(self).output_handle && final(self).input_handle == old(self).input_handle && final(self).name == old(self).name,
+        r is Ok && is_reattaching ==> final(self).unsettled is None,       // [C13.reattach.unsettled-map-cleared] a re-attach that only serves to answer the peer's closing detach announces no unsettled deliveries AND holds none: a map left behind makes the attach exchange report a resumption, the re-attach fail, and the closing detach owed to the peer is never written
 //@@ end
 }
 #[verifier::external_body]
